@@ -2,6 +2,7 @@
 from __future__ import annotations
 
 import ast
+import itertools
 import re
 from typing import List, Optional
 
@@ -141,22 +142,27 @@ def r3(ctx):
     if len(inner) != 1:
         raise AnalysisError("C03.R3: inner loop over existing terms not found")
     il = inner[0]
-    guards = [n for n in il.body if isinstance(n, ast.If) and isinstance(n.body[-1], ast.Continue)]
-    gtxt = [norm(g.test) for g in guards]
-    ok_guard = any(("len(factors) - 1 != len(cofactors)" in t or "len(cofactors) != len(factors) - 1" in t or "len(cofactors) + 1 != len(factors)" in t)
-                   and "len(factors_diff) != 1" in t and " or " in t for t in gtxt)
+    # the condition under which an existing term absorbs the candidate, with the loop's single-assignment locals written out:
+    # |F| - 1 == |C|  and  |F - C| == 1  and  the one factor of F - C is a reduced one      (F candidate, C existing)
+    from ..util import atom_mapper, inline_locals, reach_condition, truth_table
+    F, C = "set(scoped_term.factors)", "set(existing_term.factors)"
+    NEW = f"next(iter({F} - {C}))"
+    merges = [n for n in ast.walk(il) if isinstance(n, ast.Assign) and any(isinstance(c_, ast.Call) and norm(c_.func) == "cls._simplify_scoped_terms" for c_ in ast.walk(n.value))]
+    rc = reach_condition(P, merges[0]) if len(merges) == 1 else None
+    rc = inline_locals(rc, fn) if rc is not None else None
+    am = atom_mapper({f"len({F}) - 1 == len({C})": 0, f"len({C}) == len({F}) - 1": 0, f"len({C}) + 1 == len({F})": 0, f"len({F}) == len({C}) + 1": 0,
+                      f"len({F} - {C}) == 1": 1, f"{NEW}.reduced": 2})
+    tt = truth_table(rc, am, 3) if rc is not None else None
+    ok_guard = tt == tuple(a_ and b_ and r_ for a_, b_, r_ in itertools.product([False, True], repeat=3))
     ctx.check(ok_guard, "C03.R3", "merge only when the candidate has exactly one more factor and the difference is exactly one factor",
               s.module.line(il), ctx.construct(s, text="merge guard"),
-              f"skip-guards found: {gtxt}; expected `if len(factors) - 1 != len(cofactors) or len(factors_diff) != 1: continue`")
-    env = {n: v for n, v, _ in assignments(lp)}
-    ok_sets = norm(env.get("factors", ast.Constant(0))) == "set(scoped_term.factors)" and norm(env.get("cofactors", ast.Constant(0))) == "set(existing_term.factors)" \
-        and norm(env.get("factors_diff", ast.Constant(0))) == "factors - cofactors" and norm(env.get("factor_new", ast.Constant(0))) == "next(iter(factors_diff))"
+              f"the merge is reached under `{norm(rc)[:200] if rc is not None else None}`; expected |candidate| - 1 == |existing| and |candidate - existing| == 1 and the differing factor reduced")
+    ok_sets = isinstance(tt, tuple)   # every atom of the condition was recognised: the difference is candidate-minus-existing, the new factor its single element
     ctx.check(ok_sets, "C03.R3", "the difference is taken candidate-minus-existing and the new factor is its single element", s.module.line(il),
-              ctx.construct(s, text="difference"), f"factors={norm(env.get('factors', ast.Constant(None)))}, cofactors={norm(env.get('cofactors', ast.Constant(None)))}, "
-              f"diff={norm(env.get('factors_diff', ast.Constant(None)))}")
-    red = [n for n in il.body if isinstance(n, ast.If) and norm(n.test) == "factor_new.reduced"]
-    ctx.check(len(red) == 1, "C03.R3", "the rule is applied only when the differing factor is reduced", s.module.line(il), ctx.construct(s, text="reduced test"),
+              ctx.construct(s, text="difference"), f"merge condition: `{norm(rc)[:200] if rc is not None else None}` (unrecognised part: {tt if isinstance(tt, str) else None})")
+    ctx.check(ok_guard, "C03.R3", "the rule is applied only when the differing factor is reduced", s.module.line(il), ctx.construct(s, text="reduced test"),
               "expected `if factor_new.reduced:` guarding the merge")
+    red = [P.parent(merges[0])] if len(merges) == 1 and isinstance(P.parent(merges[0]), (ast.If, ast.For)) else []
     if red:
         b = red[0]
         ct = [c for c in ast.walk(b) if isinstance(c, ast.Call) and dotted(c.func) == "ScopedTerm"]
@@ -164,9 +170,9 @@ def r3(ctx):
         if len(ct) == 1 and ct[0].args and isinstance(ct[0].args[0], ast.GeneratorExp):
             g = ct[0].args[0]
             v = g.generators[0].target.id
-            e = g.elt
-            ok = (norm(g.generators[0].iter) == "scoped_term.factors" and isinstance(e, ast.IfExp) and norm(e.test) == f"{v} == factor_new"
-                  and norm(e.body) == "ScopedFactor(factor_new.factor, reduced=False)" and norm(e.orelse) == v)
+            e = inline_locals(g.elt, fn)
+            ok = (norm(g.generators[0].iter) == "scoped_term.factors" and isinstance(e, ast.IfExp) and norm(e.test) in (f"{v} == {NEW}", f"{NEW} == {v}")
+                  and norm(e.body) == f"ScopedFactor({NEW}.factor, reduced=False)" and norm(e.orelse) == v)
         ctx.check(ok, "C03.R3", "the merged term keeps the other factors and replaces the reduced one by its full version", s.module.line(b),
                   ctx.construct(s, text="merged term"), f"merged ScopedTerm is `{norm(ct[0])[:140] if ct else None}`")
         rec = [c for c in ast.walk(b) if isinstance(c, ast.Call) and norm(c.func) == "cls._simplify_scoped_terms"]
